@@ -199,7 +199,8 @@ def gen_item_C08(rng, idx, tier):
     if mode == 'npix':
         d0 = d1 = 0 if rng.random() < 0.7 else d0
     case['mind'], case['minn'] = d0, n0
-    return {'case': case, 'strict': [d1, n1], 'mode': mode}
+    return {'case': case, 'strict': [d1, n1], 'mode': mode,
+            'reload': rng.choice(['hdf5', 'fits']) if rng.random() < 0.25 else None}
 
 
 def eval_C08(item):
@@ -209,7 +210,8 @@ def eval_C08(item):
            'key': repr((case['shape'], case['k'], case['minv'], case['mind'], case['minn'], d1, n1, case.get('periodic'), case.get('adj')))}
     drv = session.driver()
     # A: compute loosely, prune strictly
-    itemA = {'case': case, 'ops': [('prune', d1, n1, [], [])]}
+    # (a quarter of the cases: the dendrogram is saved and loaded back before it is pruned)
+    itemA = {'case': case, 'ops': ([('reload', item['reload'])] if item.get('reload') else []) + [('prune', d1, n1, [], [])]}
     dA, aA, orderA, hooked, stepsA = session.run_session(case, itemA['ops'])
     # B: compute strictly
     caseB = dict(case)
@@ -222,15 +224,15 @@ def eval_C08(item):
         return res
     if orderA != orderB:
         res['pred'].append('the two runs processed the pixels in different orders')
-    hA, hB = session.hier(stepsA[1].iobs), session.hier(stepsB[0].iobs)
-    mA, mB = session.hier(stepsA[1].mobs), session.hier(stepsB[0].mobs)
+    hA, hB = session.hier(stepsA[-1].iobs), session.hier(stepsB[0].iobs)
+    mA, mB = session.hier(stepsA[-1].mobs), session.hier(stepsB[0].mobs)
     corrA = hA == mA
     corrB = hB == mB
     if not corrA:
         res['corr'].append('prune result: impl %r model %r' % (hA, mA))
     if not corrB:
         res['corr'].append('strict compute: impl %r model %r' % (hB, mB))
-    res['nontrivial'] = len(stepsA[0].iobs['structs']) != len(stepsA[1].iobs['structs'])
+    res['nontrivial'] = len(stepsA[0].iobs['structs']) != len(stepsA[-1].iobs['structs'])
     res['tags'].append('agree' if hA == hB else 'differ')
     if hA != hB:
         # arbiter: the model's prune with the original-merge-level rule
